@@ -32,6 +32,14 @@ PRIM_OWNERS = ('utils', 'thread_local')
 
 # sha256 of ast.dump (docstring stripped) of the primitives that ScopesBase.v models by hand
 PRIM_FINGERPRINTS = {
+    'thread_local_has': '77fa6bf3ffea7565',
+    'thread_local_set': 'e3ccf80e5647c5a5',
+    'thread_local_get': '102f7e5f22f8fbcc',
+    'thread_local_del': 'f2204421b6d906e9',
+    'thread_local_map': 'eda6b85d65bf97eb',
+    'thread_local_push': 'a3306b1d5cc71586',
+    'thread_local_peek': 'f2eca9ce60cc6de6',
+    'thread_local_pop': '5c67e580c3ab00fd',
 }
 
 SPEC_FLAGS = ['notify_on_change', 'enable_type_check', 'allow_partial', 'as_sealed', 'allow_writable_accessors',
@@ -96,9 +104,10 @@ class Keys:
     for i, (n2, s2, _) in enumerate(self.items):
       if n2 == ns and s2 == s:
         return i
-    ident = ident or 'k_' + ''.join(c if c.isalnum() else '_' for c in s)
-    if ns != 'tls':
-      ident = 'k_%s_%s' % (ns, ''.join(c if c.isalnum() else '_' for c in s))
+    if ident is None:
+      ident = 'k_' + ''.join(c if c.isalnum() else '_' for c in s)
+      if ns != 'tls':
+        ident = 'k_%s_%s' % (ns, ''.join(c if c.isalnum() else '_' for c in s))
     self.items.append((ns, s, ident))
     return len(self.items) - 1
   def ident(self, ns, s):
@@ -117,6 +126,7 @@ class Fn:
       raise TranslationError('%s: unsupported parameter list' % fn.name)
     self.params = [x.arg for x in a.args] + [x.arg for x in a.kwonlyargs] + ([a.kwarg.arg] if a.kwarg else [])
     self.key_params = set()
+    self.used_keys = []
     self.assigned = set()
     for n in ast.walk(fn):
       if isinstance(n, ast.Name) and isinstance(n.ctx, ast.Store):
@@ -150,11 +160,13 @@ class Fn:
   # -- expressions ---------------------------------------------------------------------------------
   def K(self, node):
     if isinstance(node, ast.Constant) and isinstance(node.value, str):
+      self.used_keys.append(node.value)
       return self.keys.ident('tls', node.value)
     if isinstance(node, ast.Name):
       if node.id in self.key_params:
         return self.var(node.id)
       if node.id in self.consts:
+        self.used_keys.append(self.consts[node.id])
         return self.keys.ident('tls', self.consts[node.id])
     if isinstance(node, ast.Attribute) and isinstance(node.value, ast.Name) and node.attr in self.consts \
         and node.value.id in ('self', 'cls'):
@@ -376,6 +388,13 @@ def _refs_thread_local(node):
   return False
 
 
+def _single_key(fn, who):
+  ks = sorted(set(fn.used_keys))
+  if len(ks) != 1:
+    raise TranslationError('%s uses %d thread-local keys %s, expected exactly one' % (who, len(ks), ks))
+  return ks[0]
+
+
 def _coq_string(s):
   return '[' + '; '.join(str(ord(c)) for c in s) + ']'
 
@@ -498,7 +517,9 @@ def translate(repo=None):
   pconsts = _module_consts(pm)
   f = _find_fn(pm, 'permission')
   en, ex = _split_cm(f, 'permission')
-  text, _ = Fn(f, pconsts, keys, {}).manager('permission', en, ex)
+  pf = Fn(f, pconsts, keys, {})
+  text, _ = pf.manager('permission', en, ex)
+  aliases = {'k_permission': _single_key(pf, 'permission')}
   defs.append('(* permissions.py: permission *)\n' + text)
   defs.append('(* permissions.py: get_permission *)\n' + Fn(_find_fn(pm, 'get_permission'), pconsts, keys, {}).getter('get_permission'))
 
@@ -517,6 +538,7 @@ def translate(repo=None):
     if not ((isinstance(b, ast.Call) and isinstance(b.func, ast.Name) and b.func.id == 'dict') or (isinstance(b, ast.Dict) and not b.keys)):
       raise TranslationError('get_context() may return an alias of the stack top')
   text, _ = c.manager('context', en, ex)
+  aliases['k_context'] = _single_key(c, 'context')
   defs.append('(* execution.py: context *)\n' + text)
 
   # ---- views/base.py -----------------------------------------------------------------------------------------------------
@@ -524,7 +546,9 @@ def translate(repo=None):
   vconsts = _module_consts(vw)
   f = _find_fn(vw, 'view_options')
   en, ex = _split_cm(f, 'view_options')
-  text, _ = Fn(f, vconsts, keys, {}).manager('view_options', en, ex)
+  vf = Fn(f, vconsts, keys, {})
+  text, _ = vf.manager('view_options', en, ex)
+  aliases['k_view_options'] = _single_key(vf, 'view_options')
   defs.append('(* views/base.py: view_options *)\n' + text)
   info['view_options_key'] = vconsts.get('_TLS_KEY_VIEW_OPTIONS')
 
@@ -562,6 +586,7 @@ def translate(repo=None):
            ignorable_methods=ignorable)
   text, _ = tfn.manager('timeit', ebody[:-1], _strip_doc(exit_fn.body), exit_extra_params=('exc_type', 'exc_value', 'traceback'))
   defs.append('(* timing.py: TimeIt.__enter__ / __exit__ *)\n' + text)
+  aliases['k_timing'] = _single_key(tfn, 'TimeIt')
   tf = _find_fn(tm, 'timeit')
   if ast.dump(_strip_doc(tf.body)[-1]) != "Return(value=Call(func=Name(id='TimeIt', ctx=Load()), args=[Name(id='name', ctx=Load())], keywords=[]))":
     raise TranslationError('timeit() no longer returns a new TimeIt(name)')
@@ -612,6 +637,9 @@ def translate(repo=None):
   out.append('Definition k_dynamic_evaluate : tlkey := %s.' % keys.items[kd][2])
   out.append('Definition k_str_format : tlkey := %s.' % keys.ident('tls', fmt['str_format']))
   out.append('Definition k_repr_format : tlkey := %s.' % keys.ident('tls', fmt['repr_format']))
+  for a in sorted(aliases):
+    out.append('Definition %s : tlkey := %s.' % (a, keys.ident('tls', aliases[a])))
+  info['aliases'] = aliases
   out.append('')
   cv = {None: 'v_none', True: 'v_true', False: 'v_false'}
   out.append('(* flags.py: every `return thread_local.thread_local_value_scope(KEY, arg, INITIAL)` and the getter of the same key *)')
